@@ -16,6 +16,8 @@ PREFIX = {
     'tz2': (bytes([6, 161, 161]), 20),
     'tz3': (bytes([6, 161, 164]), 20),
     'tz4': (bytes([6, 161, 166]), 20),
+    'KT1': (bytes([2, 90, 121]), 20),
+    'sr1': (bytes([6, 124, 117]), 20),
     'edpk': (bytes([13, 15, 37, 217]), 32),
     'sppk': (bytes([3, 254, 226, 86]), 33),
     'p2pk': (bytes([3, 178, 139, 127]), 33),
@@ -35,6 +37,7 @@ PREFIX = {
     'sig': (bytes([4, 130, 43]), 64),
     'BLsig': (bytes([40, 171, 64, 207]), 96),
     'o': (bytes([5, 116]), 32),
+    'expr': (bytes([13, 44, 64, 27]), 32),
     'B': (bytes([1, 52]), 32),
     'Net': (bytes([87, 82, 0]), 4),
 }
